@@ -156,6 +156,9 @@ def r4(R4, cfg, F):
         ar = [c for c in b.calls() if c.callee and c.callee.best == REC + 'add_record']
         ld = [c for c in b.calls() if c.callee and c.callee.best == 'asset::load_and_record']
         ok = len(ar) == 1 and len(ld) == 1 and ld[0].bb in b.reachable([ar[0].bb]) and not b.dominates(ld[0].bb, ar[0].bb)
+        if ok:
+            # ... exactly when the type is hot-reloaded and the cache has a reloader (the same test as for a cached look-up)
+            ok = common.runs_iff_hot_reloaded_and_reloader(b, ar[0])[0]
         R4.check(ok, cfg, b.path, 'records-asset-dep-before-owned-load', 'load_owned must record the asset dependency for the outer load before running the nested load', b.loc())
     else:
         R4.missing(cfg, 'Cache::load_owned_entry')
